@@ -38,14 +38,15 @@ def _run_real(sp, d, real_solve=True, solve_timeout_s=150):
             made.append(self)
 
         def solve(self, *a, **kw):
-            if not real_solve:
+            if stub[0]:
                 return True
             return super().solve(*a, **kw)
 
         def find_answer(self, *a, **kw):
-            if not real_solve:
+            if stub[0]:
                 return True
             return super().find_answer(*a, **kw)
+    stub = [not real_solve]      # only while solve_<puzzle> itself runs: replays use the recorded Solver's real find_answer
 
     def _alarm(signum, frame):
         raise _SolveTimeout()
@@ -61,6 +62,7 @@ def _run_real(sp, d, real_solve=True, solve_timeout_s=150):
             ret = sp.call(mod, d)
     finally:
         mod.Solver = saved
+        stub[0] = False
         if real_solve:
             signal.setitimer(signal.ITIMER_REAL, 0)
             signal.signal(signal.SIGALRM, old)
